@@ -948,7 +948,7 @@ class BptkServer(Flask):
         Arguments: None
         """
 
-        if not self._instance_manager.is_valid_instance(instance_uuid):
+        if not self._ensure_instance_exists(instance_uuid):
             resp = make_response('{"error": "expecting a valid instance id to be given"}', 500)
         else:
             self._instance_manager.keep_instance_alive(instance_uuid)
